@@ -915,7 +915,11 @@ func do_WITH_CLEANUP(vm *Vm, arg int32) error {
 
 	wasErr := false
 	if exc != py.None {
-		wasErr = res == py.True
+		truth, err := py.ObjectIsTrue(res)
+		if err != nil {
+			return err
+		}
+		wasErr = truth
 	}
 	if wasErr {
 		/* There was an exception and a True return */
